@@ -91,6 +91,12 @@ type Pool struct {
 	nextDir  int
 	Restarts int
 	Requests int
+	// HangFuse: once this many requests have exceeded their CPU budget, RunGrouped hands out no further requests (their results
+	// are marked as not run, which the judges report as inconclusive).  Every one of those hangs is a decided verdict already; going
+	// on would spend a minute of CPU time on each further hanging input and let the whole-run watchdog cut the run before anything
+	// is reported.  0 = no fuse.  The unchanged tree has one input of this kind (finding F1302).
+	HangFuse int
+	hangs    int
 }
 
 // limitFor: the CPU budget of one request.  gosk needs about 2 ms of CPU time
@@ -271,6 +277,9 @@ func (p *Pool) do(w *worker, req Req) Res {
 		case <-tick.C:
 			if !timedOut && procCPU(w.cmd.Process.Pid)-cpu0 > p.limitFor(len(req.Src)) {
 				timedOut = true
+				p.mu.Lock()
+				p.hangs++
+				p.mu.Unlock()
 				w.cmd.Process.Signal(syscall.SIGKILL)
 			}
 		}
@@ -380,6 +389,13 @@ func (p *Pool) RunGrouped(groups [][]Req) [][]Res {
 				for j, rq := range groups[g] {
 					if err != nil {
 						rs[j] = Res{Infra: "cannot start worker: " + err.Error()}
+						continue
+					}
+					p.mu.Lock()
+					blown := p.HangFuse > 0 && p.hangs >= p.HangFuse
+					p.mu.Unlock()
+					if blown {
+						rs[j] = Res{Infra: "not run: the hang fuse has blown (inputs exceeding their CPU budget are reported; the rest of the run is cut short)"}
 						continue
 					}
 					rq.ID = j
